@@ -180,6 +180,120 @@ def m_pinned_future_poll(it, a, ty, callee):
     return it.call('<%s as futures::Future>::poll' % m.group(1), [inner, a[1]], ty)
 
 
+
+
+# ------------------------------------------------------------------------------------------------ tokio AsyncWriteExt / time
+class WriteAllFut(Model):
+    """tokio::io::util::WriteAll: keeps calling poll_write until the whole buffer is with the writer"""
+    __slots__ = ('writer', 'writer_ty', 'buf', 'done')
+    fields = ()
+
+    def __init__(self, writer, writer_ty, buf, done=0):
+        self.writer = writer
+        self.writer_ty = writer_ty
+        self.buf = buf
+        self.done = done
+
+
+def m_write_all(it, a, ty, callee):
+    m = re.match(r'^<(.*) as tokio::io::AsyncWriteExt>::write_all$', callee, re.S)
+    return WriteAllFut(a[0], m.group(1), a[1])
+
+
+def _writer_call(it, fut, method, args):
+    w = fut.writer
+    wt = fut.writer_ty
+    tgt = it.load(w)
+    if isinstance(tgt, Adt) and tgt.ty == 'Box':
+        from .core import box_ptr
+        w = box_ptr(tgt)
+        wt = it.runtime_type(w) or wt
+    return it.call('<%s as tokio::io::AsyncWrite>::%s' % (wt, method), [Adt(PIN, 0, [w])] + args, None)
+
+
+def m_write_all_poll(it, a, ty, callee):
+    p = _unpin(a[0])
+    fut = it.load(p)
+    buf = fut.buf
+    base, n = buf.win if buf.win is not None else (0, len(it.load(buf).fields))
+    done = fut.done
+    while done < n:
+        rest = Ptr(buf.cell, buf.path, (base + done, n - done))
+        r = _writer_call(it, fut, 'poll_write', [a[1], rest])
+        if r.variant == 1:
+            it.store(p, WriteAllFut(fut.writer, fut.writer_ty, fut.buf, done))
+            return Adt(POLL, 1, ())
+        res = r.fields[0]
+        if res.variant == 1:
+            return Adt(POLL, 0, [res_err(res.fields[0])])
+        k = res.fields[0]
+        if not (isinstance(k, Int) and k.conc):
+            raise Inconclusive('write_all over a carrier that accepts a symbolic number of bytes')
+        if k.v == 0:
+            from .env import IoErr
+            return Adt(POLL, 0, [res_err(IoErr('WriteZero'))])
+        done += k.v
+    it.store(p, WriteAllFut(fut.writer, fut.writer_ty, fut.buf, done))
+    return Adt(POLL, 0, [res_ok(UNIT)])
+
+
+class FlushFut(Model):
+    __slots__ = ('writer', 'writer_ty')
+    fields = ()
+
+    def __init__(self, writer, writer_ty):
+        self.writer = writer
+        self.writer_ty = writer_ty
+
+
+def m_flush(it, a, ty, callee):
+    m = re.match(r'^<(.*) as tokio::io::AsyncWriteExt>::flush$', callee, re.S)
+    return FlushFut(a[0], m.group(1))
+
+
+def m_flush_poll(it, a, ty, callee):
+    fut = it.load(_unpin(a[0]))
+    return _writer_call(it, fut, 'poll_flush', [a[1]])
+
+
+class TimeoutFut(Model):
+    """tokio::time::timeout(d, fut): the timer never fires within the explored window (stated assumption)"""
+    __slots__ = ('fields',)
+
+    def __init__(self, inner):
+        self.fields = (inner,)
+
+    def with_field(self, i, v):
+        f = list(self.fields)
+        f[i] = v
+        return TimeoutFut(f[0])
+
+
+def m_timeout(it, a, ty, callee):
+    return TimeoutFut(a[1])
+
+
+def m_timeout_poll(it, a, ty, callee):
+    p = _unpin(a[0])
+    while isinstance(it.load(p), Ptr):
+        p = it.load(p)
+    fut = it.load(p)
+    if not isinstance(fut, TimeoutFut):
+        raise Inconclusive('Timeout::poll on %r' % (fut,))
+    from .bytesm import poll_value, NextFut, m_next_poll
+    inner = fut.fields[0]
+    if isinstance(inner, NextFut):
+        m = re.match(r"^<tokio::time::Timeout<(futures::stream::Next<'_, .*>)> as (?:std::future|futures)::Future>::poll$", callee, re.S)
+        r = m_next_poll(it, [Adt(PIN, 0, [Ptr(p.cell, p.path + (0,))]), a[1]], None, '<%s as futures::Future>::poll' % m.group(1))
+    else:
+        r = poll_value(it, Ptr(p.cell, p.path + (0,)), a[1])
+    if r.variant == 1:
+        return Adt(POLL, 1, ())
+    return Adt(POLL, 0, [res_ok(r.fields[0])])
+
+
+
+
 def install(it):
     A = it.add_model
     A(r'tokio::sync::oneshot::channel::<.*>', m_oneshot_channel)
@@ -194,3 +308,9 @@ def install(it):
     A(r"<futures::sink::Close<'_, .*> as (?:std::future|futures)::Future>::poll", m_close_poll)
     A(r'<.* as futures::FutureExt>::poll_unpin', m_future_poll_unpin)
     A(r'<std::pin::Pin<&mut .*> as (?:std::future|futures)::Future>::poll', m_pinned_future_poll)
+    A(r'<.* as tokio::io::AsyncWriteExt>::write_all', m_write_all)
+    A(r"<tokio::io::util::write_all::WriteAll<'_, .*> as (?:std::future|futures)::Future>::poll", m_write_all_poll)
+    A(r'<.* as tokio::io::AsyncWriteExt>::flush', m_flush)
+    A(r"<tokio::io::util::flush::Flush<'_, .*> as (?:std::future|futures)::Future>::poll", m_flush_poll)
+    A(r'tokio::time::timeout::<.*>', m_timeout)
+    A(r'<tokio::time::Timeout<.*> as (?:std::future|futures)::Future>::poll', m_timeout_poll)
